@@ -214,3 +214,61 @@ def observe(make, mode, k=None, classify=None):
         ob.finalized = list(tr.finalized)
         ob.warnings = [(w.category.__name__, str(w.message)) for w in wlist]
     return ob
+
+
+class TaskRun:
+    """result of one controlled multi-task execution"""
+
+    def __init__(self):
+        self.points = []   # number of enabled tasks at each choice point
+        self.choices = []  # index into the enabled list taken there
+        self.order = []    # task id stepped at every step (the schedule)
+        self.results = {}
+        self.errors = {}
+
+
+def run_tasks(coros, prefix=()):
+    """step the given coroutines one suspension at a time; at every point
+    where more than one task is unfinished the next task is a choice
+    (prefix[i], then 0 = lowest task id)."""
+    x = TaskRun()
+    drives = [Drive(c) for c in coros]
+    while True:
+        en = [i for i, d in enumerate(drives) if not d.done]
+        if not en:
+            break
+        if len(en) > 1:
+            k = len(x.points)
+            c = prefix[k] if k < len(prefix) else 0
+            if c >= len(en):
+                raise RuntimeError(f"replay divergence: choice {c} of {en} at point {k}")
+            x.points.append(len(en))
+            x.choices.append(c)
+            t = en[c]
+        else:
+            t = en[0]
+        x.order.append(t)
+        drives[t].step()
+    for i, d in enumerate(drives):
+        if d.exc is not None:
+            x.errors[i] = d.exc
+        else:
+            x.results[i] = d.result
+    return x
+
+
+def explore_tasks(make_run, on_execution, max_runs=None):
+    """enumerate every interleaving: make_run(prefix) -> TaskRun on a fresh system."""
+    stack = [()]
+    n = 0
+    while stack:
+        prefix = stack.pop()
+        x = make_run(prefix)
+        n += 1
+        on_execution(x)
+        if max_runs is not None and n >= max_runs:
+            return n, True
+        for i in range(len(prefix), len(x.points)):
+            for alt in range(1, x.points[i]):
+                stack.append(tuple(x.choices[:i]) + (alt,))
+    return n, False
